@@ -206,6 +206,20 @@ func (g *vfGen) genC08() {
 			}
 		}
 	}
+	// documents followed by blank lines / trailing white space (legal RFC 8259), whole and cut inside the tail
+	for i := 0; i < g.pick(60, 2000); i++ {
+		d := g.jdocument()
+		if len(d) > 300 {
+			continue
+		}
+		d = strings.NewReplacer("\n", " ", "\r", " ").Replace(d)
+		tail := []string{"\n\n", "\n\n\n", "\r\n\r\n", "\n \n", "\n\t\n\n", " \n\n "}[g.rng.Intn(6)]
+		t := d + tail
+		g.emit(vfOp("jdoc", []byte(t)))
+		for _, l := range []int{0, len(t) + 1, len(t), len(t) - 1, len(d) + 1, len(d) + 2} {
+			g.emit(vfOp("walk", []byte(t), l))
+		}
+	}
 	// deep nesting up to and around the cap, arrays, objects and mixed
 	for _, depth := range []int{10, 100, 2049, 4095, 4096, 4097} {
 		d := strings.Repeat("[", depth) + strings.Repeat("]", depth)
